@@ -30,6 +30,7 @@ type Result struct {
 	TimedOut bool // wall-clock watchdog fired: inconclusive, never a verdict by itself
 	CPUKill  bool // CPU budget exhausted (RLIMIT_CPU): the process was spinning
 	Crash    string
+	Signal   string // non-empty when the process was killed by a signal
 }
 
 // Opts control one execution.
@@ -38,6 +39,7 @@ type Opts struct {
 	Env     []string
 	Wall    time.Duration // watchdog (default 120s)
 	CPUSecs int           // RLIMIT_CPU for the child via `sh -c ulimit -t`; 0 = none
+	MemKB   int           // RLIMIT_AS for the child via `ulimit -v`; 0 = none
 	Stdin   string
 }
 
@@ -66,9 +68,16 @@ func Run(bin string, args []string, o Opts) Result {
 	ctx, cancel := context.WithTimeout(context.Background(), o.Wall)
 	defer cancel()
 	var cmd *exec.Cmd
-	if o.CPUSecs > 0 {
+	if o.CPUSecs > 0 || o.MemKB > 0 {
 		// ulimit -t makes the kernel deliver SIGXCPU/SIGKILL on CPU time, not wall-clock time.
-		sh := fmt.Sprintf("ulimit -t %d; exec \"$0\" \"$@\"", o.CPUSecs)
+		sh := ""
+		if o.CPUSecs > 0 {
+			sh += fmt.Sprintf("ulimit -t %d; ", o.CPUSecs)
+		}
+		if o.MemKB > 0 {
+			sh += fmt.Sprintf("ulimit -v %d; ", o.MemKB)
+		}
+		sh += "exec \"$0\" \"$@\""
 		cmd = exec.CommandContext(ctx, "sh", append([]string{"-c", sh, bin}, args...)...)
 	} else {
 		cmd = exec.CommandContext(ctx, bin, args...)
@@ -89,6 +98,7 @@ func Run(bin string, args []string, o Opts) Result {
 		r.CPU = cmd.ProcessState.UserTime() + cmd.ProcessState.SystemTime()
 		r.Exit = cmd.ProcessState.ExitCode()
 		if ws, ok := cmd.ProcessState.Sys().(syscall.WaitStatus); ok && ws.Signaled() {
+			r.Signal = ws.Signal().String()
 			if ws.Signal() == syscall.SIGXCPU || (ws.Signal() == syscall.SIGKILL && o.CPUSecs > 0 && r.CPU >= time.Duration(o.CPUSecs)*time.Second) {
 				r.CPUKill = true
 			}
